@@ -125,6 +125,13 @@ func models(cs Case, final *dmodel.Model) (a, b *dmodel.Model, kinds []string, e
 		if a, b, ok = dmodel.GenNameVariant(base); !ok {
 			return nil, nil, nil, fmt.Errorf("no generated-name variant")
 		}
+	case strings.HasPrefix(cs.Class, "genname-add:"):
+		for _, v := range dmodel.GenNameAddVariants(base) {
+			if "genname-add:"+v.Tag == cs.Class {
+				return v.From, v.To, []string{"genname-add"}, nil
+			}
+		}
+		return nil, nil, nil, fmt.Errorf("no generated-name-add variant")
 	case len(cs.Edits) > 0:
 		cur := base
 		for _, id := range cs.Edits {
@@ -228,7 +235,14 @@ func evaluate(cs Case, final *dmodel.Model) (res result) {
 		return evalRealmSchemas(cs, a)
 	}
 	identity := strings.HasPrefix(cs.Class, "identity")
-	if !identity || cs.Class != "identity:genname" {
+	if strings.HasPrefix(cs.Class, "genname-add:") {
+		// the desired side holds unnamed indexes: the expectation is stated by the variant itself
+		for _, v := range dmodel.GenNameAddVariants(poolIdx[cs.Dialect+"/"+cs.Model]) {
+			if "genname-add:"+v.Tag == cs.Class {
+				res.want = v.Want
+			}
+		}
+	} else if !identity || cs.Class != "identity:genname" {
 		if why := dmodel.Ambiguous(a, b); why != "" {
 			return result{verdict: "ood", oodClass: "no-demand:" + strings.Join(strings.Fields(why)[:3], "-"), what: why, kinds: kinds}
 		}
@@ -553,6 +567,10 @@ func generate(c *rt.Ctx) []Case {
 			}
 			for i, cl := range []string{"realm-add-schema", "realm-drop-schema"} {
 				cases = append(cases, Case{Dialect: string(d), Model: m.Name, Class: cl, Src: srcs(mi + i), API: "realm"})
+			}
+			for vi, v := range dmodel.GenNameAddVariants(m) {
+				cases = append(cases, Case{Dialect: string(d), Model: m.Name, Class: "genname-add:" + v.Tag, Src: srcCombos[0], API: "schema"})
+				cases = append(cases, Case{Dialect: string(d), Model: m.Name, Class: "genname-add:" + v.Tag, Src: srcs(1 + vi), API: []string{"table", "realm"}[vi%2]})
 			}
 			if _, _, ok := dmodel.GenNameVariant(m); ok {
 				id("genname", srcs(0), "schema", nil)
